@@ -24,19 +24,24 @@ def run(ctx):
     os.makedirs(pdir)
     for f in ("QuorumDefs.tla", "Quorum_proofs.tla"):
         shutil.copy(os.path.join(ctx.specdir, f), pdir)
-    cmd = ["timeout", "900", "tlapm", "--threads", "16", "--cleanfp", "--nofp", "Quorum_proofs.tla"]
-    t = time.time()
-    p = subprocess.run(cmd, cwd=pdir, stdout=subprocess.PIPE, stderr=subprocess.STDOUT, text=True)
-    out = p.stdout
-    m_all = re.search(r"All (\d+) obligations? proved", out)
-    m_fail = re.search(r"(\d+)/(\d+) obligations? failed", out)
-    if m_all:
-        obligations = discharged = int(m_all.group(1))
-    elif m_fail:
-        obligations = int(m_fail.group(2))
-        discharged = obligations - int(m_fail.group(1))
-    else:
-        ctx.fail("tlapm gave no obligation count (rc=%d):\n%s" % (p.returncode, out[-3000:]))
+    # backend time limits are wall-clock: on a loaded machine a prover can time out, so they are stretched, and an
+    # incomplete run is repeated once with a much larger factor before it counts as "no verdict"
+    for stretch in ("3", "20"):
+        cmd = ["timeout", "1500", "tlapm", "--threads", "16", "--stretch", stretch, "--cleanfp", "--nofp", "Quorum_proofs.tla"]
+        t = time.time()
+        p = subprocess.run(cmd, cwd=pdir, stdout=subprocess.PIPE, stderr=subprocess.STDOUT, text=True)
+        out = p.stdout
+        m_all = re.search(r"All (\d+) obligations? proved", out)
+        m_fail = re.search(r"(\d+)/(\d+) obligations? failed", out)
+        if m_all:
+            obligations = discharged = int(m_all.group(1))
+            break
+        elif m_fail:
+            obligations = int(m_fail.group(2))
+            discharged = obligations - int(m_fail.group(1))
+            ctx.note("tlapm --stretch %s: %d/%d obligations, retrying" % (stretch, discharged, obligations))
+        else:
+            ctx.fail("tlapm gave no obligation count (rc=%d):\n%s" % (p.returncode, out[-3000:]))
     ctx.note("tlapm: %d/%d obligations in %.1fs" % (discharged, obligations, time.time() - t))
     theorems = len(re.findall(r"^(THEOREM|LEMMA)\b", open(os.path.join(pdir, "Quorum_proofs.tla")).read(), re.M))
     if p.returncode != 0 or discharged != obligations or obligations < 40 or theorems < 8:
@@ -58,6 +63,12 @@ def run(ctx):
     byn = {r["n"]: r for r in rows}
     distinct = set()
     sites = {}
+    info = [o for o in res if o["site"] == "commit-info"]
+    res = [o for o in res if o["site"] != "commit-info"]
+    short = [(o["n"], o["least"], o["expect"]) for o in info if 0 <= o["least"] < o["expect"]]
+    if short:
+        ctx.note("observation (C41, not judged here): with the proposer itself among the committers getCommitConsensus reports "
+                 "consensus with fewer than N-f distinct participants, e.g. (n, participants, N-f) = %s" % short[:4])
     for o in res:
         sites[o["site"]] = sites.get(o["site"], 0) + 1
         n = o["n"]
@@ -73,7 +84,7 @@ def run(ctx):
         elif o["least"] >= 0 and o["least"] != o["expect"]:
             problem = "least-differs"
         if problem:
-            ctx.violation("threshold:%s:%s:%s" % (o["site"], o["shape"], problem.split(":")[0]), {"observed": o, "spec_row": byn.get(n)},
+            _viol(ctx, "threshold:%s:%s:%s" % (o["site"], o["shape"], problem.split(":")[0]), {"observed": o, "spec_row": byn.get(n)},
                           replay={"kind": "c42-threshold", "observed": o, "spec_row": byn.get(n)})
     need_sites = ["commit", "consensusSigns", "votes", "signs", "ledger-solo-bft-hdr", "ledger-solo-bft-sub", "ledger-vbft-legacy-hdr"]
     if not q:
@@ -106,3 +117,15 @@ def _ver():
         return subprocess.run(["tlapm", "--version"], stdout=subprocess.PIPE, stderr=subprocess.STDOUT, text=True).stdout.strip()
     except Exception:
         return "?"
+
+
+_MAXV = 20
+
+
+def _viol(ctx, key, detail, replay=None):
+    """at most _MAXV distinct violation records per run (every further one is only counted)"""
+    if len(ctx.violations) >= _MAXV and key not in [v[0] for v in ctx.violations] and not any(
+            k.get("status") == "known" and (k["key"] == key or (k["key"].endswith("*") and key.startswith(k["key"][:-1]))) for k in ctx.known):
+        ctx.cov["violations_not_recorded"] = ctx.cov.get("violations_not_recorded", 0) + 1
+        return True
+    return ctx.violation(key, detail, replay=replay)
